@@ -337,3 +337,45 @@ func c06Score(c *core.Ctx, ev *eval.Evaluator, tabs *Tables) {
 }
 
 func baseSetOf(sym byte) (int, bool) { return oracleBaseSet(sym) }
+
+// checkMeasureDispatch (shared by C06 and C07): the distance a neighbour is ranked and reported with is the value
+// of the distance function the --measure names - unchanged (no clamping, rounding or other post-processing).
+func checkMeasureDispatch(c *core.Ctx, rule string) {
+	tabs := extractTables(c, newEval(c), rule+"/tables")
+	recT := namedType(c, "pkg/fastaio", "EncodedFastaRecord")
+	if !tabs.OK || recT == nil {
+		return
+	}
+	mkRec := func(id string, idx int64, base byte, score int64) *eval.StructVal {
+		r := absValue(recT, id, eval.K(1)).(*eval.StructVal)
+		r.F["ID"] = eval.S(id)
+		r.F["Description"] = eval.S(id)
+		r.F["Idx"] = eval.K(idx)
+		r.F["Score"] = eval.K(score)
+		r.F["Seq"] = eval.NewSlice(eval.K(tabs.Soft[base]))
+		for _, f := range []string{"Count_A", "Count_C", "Count_G", "Count_T"} {
+			r.F[f] = eval.K(0)
+		}
+		return r
+	}
+	stub := func(ev *eval.Evaluator, table map[string]float64, offset map[string]float64) {
+		for _, fname := range []string{"rawDistance", "snpDistance", "tn93Distance"} {
+			fn := c.LookupFunc("pkg/closest", fname)
+			if fn == nil {
+				continue
+			}
+			off := offset[fname]
+			ev.Extern[fn.FullName()] = func(ev *eval.Evaluator, pos token.Pos, recv eval.Value, args []eval.Value) eval.Value {
+				t := args[1].(*eval.StructVal)
+				return eval.FConst(table[t.F["ID"].(eval.Str).Const()] + off)
+			}
+		}
+	}
+	for _, name := range []string{"findClosest", "findClosestN"} {
+		if fn := c.LookupFunc("pkg/closest", name); fn != nil {
+			c06Dispatch(c, fn, name, mkRec, stub)
+		} else {
+			c.Und(rule+"/"+name+"/measure-dispatch", token.NoPos, "UNRESOLVED anchor closest.%s", name)
+		}
+	}
+}
